@@ -212,8 +212,11 @@ int write_macho(
   file.write_int32_at_offset(marker - markers.segment_start, markers.load_command_size);
 
   // Add code.
-  for (uint32_t i = memory->low_address; i <= memory->high_address; i++)
+  // 64 bit counter: high_address can be 0xffffffff and a 32 bit one would wrap.
+  for (uint64_t a = memory->low_address; a <= memory->high_address; a++)
   {
+    const uint32_t i = (uint32_t)a;
+
     file.write_int8(memory->read8(i));
   }
 
